@@ -155,10 +155,18 @@ class DSDLDefinition(ReadableDSDLFile):
         :raises InvalidDefinitionError: If the file does not exist.
         """
         root_path = cls._infer_path_to_root_from_first_found(dsdl_path, valid_dsdl_roots)
-        if not dsdl_path.is_absolute():
-            dsdl_path_resolved = (root_path.parent / dsdl_path).resolve(strict=False)
-        else:
+        if dsdl_path.is_absolute():
             dsdl_path_resolved = dsdl_path.resolve(strict=False)
+        else:
+            try:
+                _ = dsdl_path.relative_to(root_path)
+            except ValueError:
+                # The relative path begins with the root namespace name: it is relative to the root's parent.
+                dsdl_path_resolved = (root_path.parent / dsdl_path).resolve(strict=False)
+            else:
+                # The relative path already leads through the root directory as given: it is relative to the
+                # current working directory, like the root itself.
+                dsdl_path_resolved = dsdl_path.resolve(strict=False)
         return cls(dsdl_path_resolved, root_path)
 
     def __init__(self, file_path: Path, root_namespace_path: Path):
